@@ -166,6 +166,8 @@ type Outcome struct {
 
 var currentRun atomic.Int64
 var currentStart atomic.Int64
+var currentSeed atomic.Uint64
+var currentTape atomic.Pointer[[]uint64] // set while a replayed candidate runs (shrinking)
 
 // RunOne executes p.Run on the tape, converting panics into violations.
 func RunOne(p *Prop, tb *testing.T, tier string, t *tape.Tape, keepNotes bool) (out Outcome) {
@@ -290,9 +292,9 @@ func Worker(tb *testing.T, cfg WorkerConfig) *Summary {
 	deadline := start.Add(time.Duration(cfg.Secs) * time.Second)
 	timeout := p.RunTimeoutS
 	if timeout == 0 {
-		timeout = 60
+		timeout = 20
 		if cfg.Tier == "thorough" {
-			timeout = 300
+			timeout = 120
 		}
 	}
 	stopWatch := startWatchdog(cfg, timeout)
@@ -336,6 +338,8 @@ func Worker(tb *testing.T, cfg WorkerConfig) *Summary {
 			os.WriteFile(cfg.Progress, []byte(fmt.Sprint(i)), 0o644)
 		}
 		seed := RunSeed(cfg.Seed, p.ID, i)
+		currentSeed.Store(seed)
+		currentTape.Store(nil)
 		currentStart.Store(time.Now().UnixNano())
 		currentRun.Store(int64(i))
 		t0 := time.Now()
@@ -376,7 +380,6 @@ func Worker(tb *testing.T, cfg WorkerConfig) *Summary {
 			if fv, ok := byKey[key]; ok {
 				fv.Count++
 			} else if len(byKey) < cfg.MaxClasses {
-				currentStart.Store(0) // no watchdog while shrinking
 				fv := shrinkViolation(p, tb, cfg, seed, i, out.Viol)
 				byKey[key] = fv
 				sum.Violations = append(sum.Violations, fv)
@@ -418,9 +421,14 @@ func shrinkViolation(p *Prop, tb *testing.T, cfg WorkerConfig, seed uint64, run 
 		secs = 15
 	}
 	best, cand := tape.Shrink(vals, func(c []uint64) bool {
+		cc := append([]uint64(nil), c...)
+		currentTape.Store(&cc)
+		currentStart.Store(time.Now().UnixNano())
 		o := RunOne(p, tb, cfg.Tier, tape.Replay(c).NoRecord(), false)
 		return o.Viol != nil && o.Viol.Key() == key
 	}, 4000, time.Now().Add(time.Duration(secs)*time.Second))
+	currentTape.Store(nil)
+	currentStart.Store(time.Now().UnixNano())
 	fv.Candidates = cand
 	rt := tape.Replay(best)
 	o := RunOne(p, tb, cfg.Tier, rt, true)
@@ -456,7 +464,11 @@ func startWatchdog(cfg WorkerConfig, timeoutS int) func() {
 					run := currentRun.Load()
 					buf := make([]byte, 1<<16)
 					n := runtime.Stack(buf, true)
-					msg := map[string]any{"hang_run": run, "timeout_s": timeoutS, "stacks": string(buf[:n])}
+					msg := map[string]any{"hang_run": run, "seed": fmt.Sprint(currentSeed.Load()), "timeout_s": timeoutS, "stacks": string(buf[:n]),
+						"frame": runningLibraryFrame(string(buf[:n]))}
+					if tp := currentTape.Load(); tp != nil {
+						msg["tape"] = *tp
+					}
 					b, _ := json.Marshal(msg)
 					os.WriteFile(cfg.Out+".hang", b, 0o644)
 					os.Exit(3)
@@ -465,6 +477,18 @@ func startWatchdog(cfg WorkerConfig, timeoutS int) func() {
 		}
 	}()
 	return func() { close(done) }
+}
+
+// runningLibraryFrame extracts the innermost library frame of the goroutine
+// that is executing the run (the one with RunOne on its stack).
+func runningLibraryFrame(stacks string) string {
+	for _, g := range strings.Split(stacks, "\n\n") {
+		if !strings.Contains(g, "core.RunOne") {
+			continue
+		}
+		return topLibraryFrame([]byte(g))
+	}
+	return "?"
 }
 
 // ReplayFile is the on-disk replay format.
@@ -481,7 +505,8 @@ type ReplayFile struct {
 	Shrunk     bool       `json:"shrunk"`
 	OrigLen    int        `json:"orig_tape_len"`
 	Reproduced string     `json:"reproduced,omitempty"`
-	Corner     string     `json:"corner,omitempty"` // hand-written scenario instead of a tape
+	Corner     string     `json:"corner,omitempty"`    // hand-written scenario instead of a tape
+	FromSeed   bool       `json:"from_seed,omitempty"` // regenerate the tape from Seed (hang/crash reports of seeded runs)
 	Comment    string     `json:"comment,omitempty"`
 }
 
@@ -511,6 +536,18 @@ func Replay(tb *testing.T, rf *ReplayFile) *ReplayResult {
 		cp.Run = f
 		p = &cp
 	}
-	out := RunOne(p, tb, tier, tape.Replay(rf.Tape), true)
+	tp := tape.Replay(rf.Tape)
+	if rf.FromSeed {
+		tp = tape.New(rf.Seed)
+	}
+	out := RunOne(p, tb, tier, tp, true)
 	return &ReplayResult{Violation: out.Viol, Skip: out.Skip, Scenario: out.Notes}
+}
+
+// StartReplayWatchdog arms the hang watchdog for a replay.
+func StartReplayWatchdog(out string, timeoutS int) func() {
+	currentStart.Store(time.Now().UnixNano())
+	currentRun.Store(-2)
+	stop := startWatchdog(WorkerConfig{Out: out}, timeoutS)
+	return func() { currentStart.Store(0); stop() }
 }
